@@ -14,7 +14,7 @@ TIMEOUT = {"quick": 900, "thorough": 3000}
 THREADS = {"quick": 1, "thorough": 1}
 RULE = (
     "per case: one generated card, started from the full or from a restricted chain selection, x every operation in {partial_weight, "
-    "partial_weight_interference, fit_fractions old/new, cal_fitfractions, factor_iteration, build_amp_matrix, "
+    "partial_weight_interference, fit_fractions old/new, one FitFractions object reused under another selection / inside a restricted-resonance block, cal_fitfractions, factor_iteration, build_amp_matrix, "
     "build_angle_amp_matrix, build_int_matrix, temp_params (dict and positional override), mask_params, temp_used_res, temp_total_gls_one, temp_config, "
     "vm.temp_params, vm.mask_params, ConfigLoader.mask_params, nested blocks up to depth 3} x fault points: none (normal exit), an "
     "exception raised by the block body, an exception injected at EVERY k-th call the clean run made of the inner functions "
